@@ -15,6 +15,7 @@ usage: python -m checks.store C06|C08 [--tier quick|thorough] [--replay file]
 '''
 
 import collections
+import concurrent.futures
 import json
 import os
 import random
@@ -35,7 +36,7 @@ MC_PROPS = {
 # which kinds of cases must have occurred for the run not to be vacuous
 NEEDED = {
     'C06': ['Update', 'Bump', 'Load-exact-run', 'Load-absent-run', 'Load-future-run', 'Load-other-version-only', 'Load-other-target-only', 'Load-nothing', 'Remove-hit', 'Reopen-some'],
-    'C08': ['Update', 'Register', 'AddTarget', 'Remove-hit', 'Remove-miss', 'Remove-with-prefix-sibling', 'Reset-hit', 'Reset-prefix-sibling-only', 'Reset-other-algorithm-only', 'Trace-some', 'Trace-with-prefix-sibling', 'Next-some', 'Next-empty', 'Reopen-some'],
+    'C08': ['Reset-with-id-prefix-neighbour', 'Next-across-digit-boundary', 'Update', 'Register', 'AddTarget', 'Remove-hit', 'Remove-miss', 'Remove-with-prefix-sibling', 'Reset-hit', 'Reset-prefix-sibling-only', 'Reset-other-algorithm-only', 'Trace-some', 'Trace-with-prefix-sibling', 'Next-some', 'Next-empty', 'Reopen-some'],
 }
 MCW = min(core.NPROC, 8)
 
@@ -89,9 +90,9 @@ def parse_scheds(res, maximal_only=False):
     return out
 
 
-def gen_schedules(chk, name, alpha, maxops, timeout=1800):
+def gen_schedules(chk, name, alpha, maxops, emit='Emit', timeout=1800):
     cfg = os.path.join(chk.work, f'{name}.cfg')
-    tlc.write_cfg(cfg, spec='GenSpec', constants=consts(alpha, maxops), extra=['VIEW View', 'ACTION_CONSTRAINT Emit'])
+    tlc.write_cfg(cfg, spec='GenSpec', constants=consts(alpha, maxops), extra=['VIEW View', f'ACTION_CONSTRAINT {emit}'])
     res = tlc.run('Store_Gen.tla', cfg, workers=1, timeout=timeout, out_file=os.path.join(chk.work, f'{name}.out'))
     if not res.ok:
         raise core.Machinery(f'generation {name} failed: {res.error or res.violated}')
@@ -118,13 +119,55 @@ def sim_schedules(chk, name, alpha, chains, depth, seed, workers=4, timeout=1800
     return out
 
 
-def to_jobs(scheds, start=0):
+RUNMAPS = [{1: 9, 2: 10, 3: 11}, {1: 8, 2: 9, 3: 10}, {1: 1, 2: 10, 3: 11}, {1: 99, 2: 100, 3: 101}, {1: 1, 2: 2, 3: 3}]
+FILLERS = 10
+
+
+def environment(n, h, alpha):
+    '''the database the history starts on (logged in the trace header; nothing here is judged):
+    every fourth history starts on an empty database with the model's own run ids; the others on a database
+    where ten filler targets / tasks / algorithms (each with a state vector and a value) and the model's own
+    names are registered in an order that gives ONE model name of each table the id 1 and the others ids 10..,
+    and with run ids that cross a digit boundary.  The name that gets id 1 is the one the last name-addressed
+    operation of the history speaks about (else it rotates).'''
+    if n % 4 == 3:
+        return {'targets': [], 'regs': [], 'runmap': {}}
+    last = next((e for e in reversed(h) if e['ev'] in ('Reset', 'Remove', 'Trace') and e['a']), None)
+    rot = n // 4
+
+    def first(names, want):
+        names = sorted(names)
+        f = want if want in names else names[rot % len(names)]
+        return [f] + [x for x in names if x != f]
+
+    tgts = first(alpha['Targets'], last['tgt'] if last else '')
+    tasks = first(alpha['Tasks'], last['task'] if last else '')
+    algs = first(alpha['AlgNames'], last['a'] if last else '')
+    svs = first(alpha['SvNames'], last['s'] if last else '')
+    vals = first(alpha['ValNames'], last['v'] if last else '')
+    model = [
+        {'task': tk, 'a': a, 'av': av, 's': svs[0], 'sv': 10000, 'v': vals[0], 'vv': 10000}
+        for av in ((10000, 20000) if rot % 2 == 0 else (20000, 10000))
+        for tk in tasks
+        for a in algs
+    ]
+    fill = [{'task': f'Q{i:02d}', 'a': f'F{i:02d}', 'av': 10000, 's': 'g', 'sv': 10000, 'v': 'w', 'vv': 10000} for i in range(FILLERS)]
+    gt = [f'G{i:02d}' for i in range(FILLERS)]
+    return {
+        'targets': gt[:1] + tgts[:1] + gt[1:-1] + tgts[1:],
+        'regs': fill[:1] + model[:1] + fill[1:-1] + model[1:],
+        'runmap': RUNMAPS[rot % len(RUNMAPS)],
+    }
+
+
+def to_jobs(scheds, alpha_of, start=0):
     jobs = []
     for i, h in enumerate(scheds):
         n = start + i
         jobs.append(
             {
                 'id': n,
+                'env': environment(n, h, alpha_of(i)),
                 'events': [{k: e[k] for k in FIELDS} for e in h],
                 'sweep': True,
                 'chunk': 7 if n % 3 == 0 else 0,  # framing on the path for every third history
@@ -185,7 +228,7 @@ def validate_and_collect(chk, pid, jobs, kinds):
                 continue
             steps = recorded[tid]
             st = steps[line - 1]
-            detail = {'trace': tid, 'line': line, 'event': ev, 'args': {k: v for k, v in st['args'].items() if v not in ('', 0)}, 'obs': {k: v for k, v in st['obs'].items() if v not in ('', 0, [], False)}, 'history': [[p['ev']] + [p['args'][k] for k in ('tgt', 'task', 'a', 's', 'v', 'run', 'c', 'av', 'sv', 'vv')] for p in steps[1 : line - 1]][-8:]}
+            detail = {'trace': tid, 'line': line, 'event': ev, 'args': {k: v for k, v in st['args'].items() if v not in ('', 0)}, 'obs': {k: v for k, v in st['obs'].items() if v not in ('', 0, [], False)}, 'env': {'runmap': byid[tid].get('env', {}).get('runmap', {}), 'preregistered': len(byid[tid].get('env', {}).get('regs', []))}, 'history': [[p['ev']] + [p['args'][k] for k in ('tgt', 'task', 'a', 's', 'v', 'run', 'c', 'av', 'sv', 'vv')] for p in steps[1 : line - 1]][-8:]}
             chk.add_violation(clause, signature(clause, byid[tid], steps, line), detail, {'job': byid[tid], 'line': line})
     return rows
 
@@ -203,34 +246,59 @@ def run(pid, tier, seed, replay=None):
         return chk.finish('replay of one recorded history')
     thorough = tier == 'thorough'
     props = MC_PROPS[pid]
-    # 1. MC: the repaired transcription satisfies the clauses on the whole bounded domain
-    chk.mc('mc_tiny3', 'Store_MC.tla', dict(spec='Spec', constants=consts(TINY, 3), extra=['VIEW View'], **props), workers=MCW)
+    # TLC runs that do not depend on one another are started together (a JVM start costs seconds; the heavy
+    # exhaustive runs of the thorough tier keep the machine to themselves)
+    pool = concurrent.futures.ThreadPoolExecutor(max_workers=6)
+
+    def mc(name, alpha, maxops, workers, **kw):
+        return chk.mc(name, 'Store_MC.tla', dict(spec='Spec', constants=consts(alpha, maxops, **{k: kw.pop(k) for k in ('pinned', 'canon') if k in kw}), extra=['VIEW View'], **props), workers=workers, **kw)
+
+    # 2. GEN (started first, runs beside the model checking)
+    f_gen = pool.submit(gen_schedules, chk, 'gen', SMALL, 3 if thorough else 2)
+    # the three-operation histories of the tiny instance that store something, change a version and end in an
+    # operation addressed by name (set-up, change, observe: e.g. update, version bump, reset)
+    f_obs = pool.submit(gen_schedules, chk, 'gen_obs3', TINY, 3, 'EmitObserved')
     if thorough:
-        chk.mc('mc_small2', 'Store_MC.tla', dict(spec='Spec', constants=consts(SMALL, 2), extra=['VIEW View'], **props), workers=4)
-        chk.mc('mc_small3', 'Store_MC.tla', dict(spec='Spec', constants=consts(SMALL, 3), extra=['VIEW View'], **props), workers=core.NPROC)
-        chk.mc('mc_full2', 'Store_MC.tla', dict(spec='Spec', constants=consts(FULL, 2), extra=['VIEW View'], **props), workers=MCW)
-        chk.mc('mc_small4', 'Store_MC.tla', dict(spec='Spec', constants=consts(SMALL, 4, canon=True), extra=['VIEW View'], **props), workers=core.NPROC)
-        chk.mc('mc_full3', 'Store_MC.tla', dict(spec='Spec', constants=consts(FULL, 3, canon=True), extra=['VIEW View'], **props), workers=core.NPROC)
+        f_sim = pool.submit(sim_schedules, chk, 'sim_dense', DENSE, 1000, 25, seed, 4)
+        f_wide = pool.submit(sim_schedules, chk, 'sim_wide', WIDE, 500, 25, seed + 1, 4)
+    else:
+        f_sim = pool.submit(sim_schedules, chk, 'sim_mid', MID, 60, 25, seed, 2)
+        f_wide = None
+    # 1. MC: the repaired transcription satisfies the clauses on the whole bounded domain ...
+    f_pin = pool.submit(mc, 'mc_pinned', TINY, 3, 2, pinned=True, expect_ok=False)
+    if thorough:
+        mc('mc_tiny3', TINY, 3, 4)
+        mc('mc_small2', SMALL, 2, 4)
+        mc('mc_small3', SMALL, 3, MCW)
+        mc('mc_full2', FULL, 2, MCW)
+        f_gen.result(), f_obs.result(), f_sim.result(), f_wide.result()
+        mc('mc_small4', SMALL, 4, core.NPROC, canon=True)
+        mc('mc_full3', FULL, 3, core.NPROC, canon=True)
+    else:
+        mc('mc_tiny3', TINY, 3, 4)
     #    ... and the transcription of the tree as pinned is refuted (design-level defect visible without running code)
-    pin = chk.mc('mc_pinned', 'Store_MC.tla', dict(spec='Spec', constants=consts(TINY, 3, pinned=True), extra=['VIEW View'], **props), workers=4, expect_ok=False)
+    pin = f_pin.result()
     if pin.ok:
         raise core.Machinery('the transcription of the pinned subset/reset satisfies the clauses: the model cannot tell the defect')
     chk.extra['pinned_transcription_refuted_by'] = pin.violated
-    # 2. GEN
-    scheds = gen_schedules(chk, 'gen', SMALL, 3 if thorough else 2)
+    scheds = f_gen.result()
     total_transitions = len(scheds)
-    cap = 16000 if thorough else 1200
+    cap = 16000 if thorough else 700
     if len(scheds) > cap:
         short = [h for h in scheds if len(h) <= 2]
         rest = [h for h in scheds if len(h) > 2]
         rnd.shuffle(rest)
         scheds = (short + rest)[:cap] if len(short) < cap else rnd.sample(short, cap)
-    if thorough:
-        sims = sim_schedules(chk, 'sim_dense', DENSE, 1000, 25, seed, workers=MCW)
-        sims += sim_schedules(chk, 'sim_wide', WIDE, 500, 25, seed + 1, workers=MCW)
-    else:
-        sims = sim_schedules(chk, 'sim_mid', MID, 80, 25, seed, workers=4)
-    jobs = to_jobs(scheds + sims)
+    obs3 = f_obs.result()
+    total_transitions += len(obs3)
+    scheds += obs3
+    sims = f_sim.result()
+    wide = f_wide.result() if f_wide else []
+    pool.shutdown()
+    nwide = len(wide)
+    sims += wide
+    nall = len(scheds) + len(sims)
+    jobs = to_jobs(scheds + sims, lambda i: SMALL if i < len(scheds) else (WIDE if i >= nall - nwide else (DENSE if thorough else MID)))
     chk.samples = [{'history': [[e[k] for k in FIELDS if e[k] not in ('', 0)] for e in j['events']]} for j in rnd.sample(jobs[: len(scheds)], min(3, len(scheds)))] + [
         {'history': [[e[k] for k in FIELDS if e[k] not in ('', 0)] for e in j['events']]} for j in jobs[len(scheds) : len(scheds) + 1]
     ]
